@@ -33,9 +33,20 @@ def alphaCut (g : List Rat) (P : PB) (a : Rat) : Except Err Ivl := do
   let c ← cutRaw g P a
   mkIvl c.1 c.2
 
+/-- elementwise evaluation, first error wins (numpy evaluates the whole array in one expression) -/
+def mapE (f : Rat → Except Err Ivl) : List Rat → Except Err (List Ivl)
+  | [] => .ok []
+  | x :: r =>
+    match f x with
+    | .error e => .error e
+    | .ok a =>
+      match mapE f r with
+      | .error e => .error e
+      | .ok l => .ok (a :: l)
+
 /-- `alpha_cut(levels)` for an array of levels: one vector Interval, `np.all(lo ≤ hi)` asserted -/
 def alphaCutArr (g : List Rat) (P : PB) (lv : List Rat) : Except Err (List Ivl) := do
-  let cs ← lv.mapM (cutRaw g P)
+  let cs ← mapE (cutRaw g P) lv
   if cs.all (fun c => decide (c.1 ≤ c.2)) then pure cs else .error .Assertion
 
 /-- `np.searchsorted(arr, x, side="right")` on a non-decreasing array: how many bounds are `≤ x` -/
@@ -58,7 +69,7 @@ def cdf (g : List Rat) (P : PB) (x : Rat) : Except Err Ivl := do
   mkIvl c.1 c.2
 
 def cdfArr (g : List Rat) (P : PB) (xs : List Rat) : Except Err (List Ivl) := do
-  let cs ← xs.mapM (cdfRaw g P)
+  let cs ← mapE (cdfRaw g P) xs
   if cs.all (fun c => decide (c.1 ≤ c.2)) then pure cs else .error .Assertion
 
 /-- `discretise(n)`; `lv = np.linspace(0.001, 0.999, n)`; `n = none` is the default argument -/
